@@ -5,7 +5,7 @@
     (2) the fields of the engine's goroutine-owning struct types, as extracted from the current
     sources on every run, satisfy that discipline.  Not proved: that the extraction sees every access
     (it is syntactic: struct fields reached through the receiver, package-level maps, locals captured by
-    function literals; other package variables, aliases and other packages are outside it) — for those, and for panics, the check relies on the
+    function literals, and the list of package-level variables that can hold state; aliases and other packages are outside it) — for those, and for panics, the check relies on the
     harness rebuilt with Go's race detector. *)
 From BV Require Import Model.Lockset Proofs.LocksetProofs Gen.Facts.
 Open Scope nat_scope.
@@ -48,6 +48,12 @@ Print Assumptions C17_captured_locals_synchronised.
 Theorem C17_one_run_loop_per_value : single_owner_ok run_starts = true.
 Proof. exact single_owner_holds. Qed.
 Print Assumptions C17_one_run_loop_per_value.
+
+(* ... and the engine's packages hold no package-level state beyond the variables that were looked at one by one
+   (Model/Lockset.v reviewed_package_state): nothing else is shared by the instances of one OS process *)
+Theorem C17_no_unreviewed_package_level_state : package_state_ok package_level_state = true.
+Proof. exact package_state_reviewed. Qed.
+Print Assumptions C17_no_unreviewed_package_level_state.
 
 (* without the discipline a race exists (the notion is not vacuous) *)
 Theorem C17_race_without_discipline : race [Acc 1 7 true; Acc 2 7 false] 7.
